@@ -10,11 +10,14 @@ B=$(mktemp -d /tmp/st-verif-baseline.XXXXXX)
 trap 'rm -rf "$B"' EXIT
 cmake -G Ninja -S "$REPO" -B "$B" -DCMAKE_BUILD_TYPE=Release > "$B/cfg.log" 2>&1 || { tail -20 "$B/cfg.log"; echo "BASELINE: configure failed"; exit 2; }
 cmake --build "$B" -j16 > "$B/build.log" 2>&1 || { tail -40 "$B/build.log"; echo "BASELINE: build failed"; exit 2; }
-: > "$B/test.log"
-for t in test_cost_grad test_cubic_spline_vs_minco_nd test_septic_spline_vs_minco_nd test_quintic_spline_vs_minco_nd test_Grad test_with_min_jerk_3d test_bc_grad test_with_min_snap_3d test_ppolyND; do
-  ( cd "$B" && timeout 900 ./$t >> "$B/test.log" 2>&1 ) &
+# every binary writes its own log (concurrent appends to one file can interleave lines and hide a PASS line from the parser)
+TESTS="test_cost_grad test_cubic_spline_vs_minco_nd test_septic_spline_vs_minco_nd test_quintic_spline_vs_minco_nd test_Grad test_with_min_jerk_3d test_bc_grad test_with_min_snap_3d test_ppolyND"
+for t in $TESTS; do
+  ( cd "$B" && timeout 900 ./$t > "$B/$t.testlog" 2>&1 ) &
 done
 wait
+: > "$B/test.log"
+for t in $TESTS; do cat "$B/$t.testlog" >> "$B/test.log"; echo >> "$B/test.log"; done
 python3 - "$B/test.log" "$HERE/scripts/baseline_names.txt" <<'PY'
 import sys,re
 log=open(sys.argv[1],errors='replace').read().splitlines()
